@@ -249,6 +249,12 @@ pub fn lu_replay(path: &str) -> Result<Value, String> {
                 let mut e = 0.0f64; let mut sc = 1.0f64;
                 for i in 0..n { let w = dual(&c["x"][i]); e = e.max((x[i].re - w.re).abs()).max((x[i].eps - w.eps).abs()); sc = sc.max(w.re.abs()).max(w.eps.abs()); }
                 rep.check(&format!("LU|solve|{tag}"), e, 1e-10 * sc, || json!({"a": c["a"], "expected": c["x"], "observed": (0..n).map(|i| x[i].to_json()).collect::<Vec<_>>()}));
+                if let Some(wi) = c["inv"].as_array().filter(|a| a.len() == n) {
+                    let inv = lu.inverse();
+                    let mut e = 0.0f64; let mut sc = 1.0f64;
+                    for i in 0..n { for j in 0..n { let w = dual(&wi[i][j]); e = e.max((inv[(i, j)].re - w.re).abs()).max((inv[(i, j)].eps - w.eps).abs()); sc = sc.max(w.re.abs()).max(w.eps.abs()); } }
+                    rep.check(&format!("LU|inverse|{tag}"), e, 1e-10 * sc, || json!({"a": c["a"], "expected": c["inv"]}));
+                }
                 if rep.samples.len() < 2 && swaps > 0 { rep.samples.push(json!({"a": c["a"], "swaps": swaps, "det": det.to_json()})); }
             }
             ("done", other) => rep.check(&format!("LU|regular|{tag}"), f64::INFINITY, 1.0, || json!({"a": c["a"], "observed": match other { Ok(Err(_)) => "Err (reported singular)", Err(_) => "panic", _ => "?" }})),
@@ -257,4 +263,44 @@ pub fn lu_replay(path: &str) -> Result<Value, String> {
     }
     Ok(json!({"cases": cases, "checks": rep.checks, "distinct_cases": rep.per_case.len(), "per_case": rep.per_case,
               "singularity_undecidable_in_floats": inexact, "n_violations": rep.n_viol, "violations": rep.violations, "samples": rep.samples}))
+}
+
+/// replay of the Jacobi step machine of Jacobi.tla (the rational-rotation family): eigenvalues with their
+/// derivatives and the eigenvector matrix, part by part
+pub fn jacobi_replay(path: &str) -> Result<Value, String> {
+    let text = std::fs::read_to_string(path).map_err(|e| format!("{path}: {e}"))?;
+    let mut rep = Rep { checks: 0, per_case: BTreeMap::new(), worst: BTreeMap::new(), violations: vec![], n_viol: 0, samples: vec![] };
+    let q = |v: &Value| v[0].as_f64().unwrap() / v[1].as_f64().unwrap();
+    let dual = |v: &Value| Dual64::new(q(&v["re"]), q(&v["eps"]));
+    let mut cases = 0u64;
+    for line in text.lines() {
+        let l = line.trim();
+        let Some(rest) = l.strip_prefix("<<\"JACOBI\", ") else { continue };
+        let Some(inner) = rest.strip_suffix(">>") else { continue };
+        let s: String = serde_json::from_str(inner).map_err(|e| e.to_string())?;
+        let c: Value = serde_json::from_str(&s).map_err(|e| e.to_string())?;
+        cases += 1;
+        let rows = c["a"].as_array().ok_or("a")?;
+        let n = rows.len();
+        let a = Array2::<Dual64>::from_shape_fn((n, n), |(i, j)| dual(&rows[i][j]));
+        // position of the coupled pair: part of the case name
+        let mut pq = String::new();
+        for i in 0..n { for j in (i + 1)..n { if a[(i, j)].re != 0.0 { pq = format!("p{i}q{j}"); } } }
+        let tag = format!("n{n}|{pq}");
+        let r = std::panic::catch_unwind(std::panic::AssertUnwindSafe(|| jacobi_eigenvalue(a.clone(), 200)));
+        let Ok((d, v)) = r else {
+            rep.check(&format!("jacobi|panic|{tag}"), f64::INFINITY, 1.0, || json!({"a": c["a"]}));
+            continue;
+        };
+        let (mut e, mut sc) = (0.0f64, 1.0f64);
+        for j in 0..n { let w = dual(&c["d"][j]); e = e.max((d[j].re - w.re).abs()).max((d[j].eps - w.eps).abs()); sc = sc.max(w.re.abs()).max(w.eps.abs()); }
+        rep.check(&format!("jacobi|eigenvalues|{tag}"), e, 1e-11 * sc, || json!({"a": c["a"], "expected": c["d"], "observed": (0..n).map(|j| d[j].to_json()).collect::<Vec<_>>()}));
+        let (mut e, mut sc) = (0.0f64, 1.0f64);
+        for i in 0..n { for j in 0..n { let w = dual(&c["v"][i][j]); e = e.max((v[(i, j)].re - w.re).abs()).max((v[(i, j)].eps - w.eps).abs()); sc = sc.max(w.re.abs()).max(w.eps.abs()); } }
+        rep.check(&format!("jacobi|eigenvectors|{tag}"), e, 1e-11 * sc, || json!({"a": c["a"], "expected": c["v"],
+            "observed": (0..n).map(|i| (0..n).map(|j| v[(i, j)].to_json()).collect::<Vec<_>>()).collect::<Vec<_>>()}));
+        if rep.samples.len() < 2 { rep.samples.push(json!({"a": c["a"], "d": (0..n).map(|j| d[j].to_json()).collect::<Vec<_>>()})); }
+    }
+    Ok(json!({"cases": cases, "checks": rep.checks, "distinct_cases": rep.per_case.len(), "per_case": rep.per_case,
+              "n_violations": rep.n_viol, "violations": rep.violations, "samples": rep.samples}))
 }
